@@ -19,6 +19,10 @@ def fams(tier):
     return cachefam.lock_families("memory") + cachefam.lock_families("file")
 
 
+def traps(tier):
+    return [t for be in ('memory','file') for t in cachefam.trap_families(be)]
+
+
 def run(tier, seed):
     return run_cache_property(
         "C14", tier, seed, mcs, fams, 60, 600, "model_checking",
